@@ -67,7 +67,7 @@ type Key struct {
 func DeriveKey(seed []byte) Key {
 	h := ref.SHA512(seed)
 	x := ref.ClampInt(h[:32])
-	y := refh2c.Mul(ref.Base, x)
+	y := MulBase(x)
 	return Key{Seed: append([]byte{}, seed...), X: x, Y: y, PK: y.Encode(), Prefix: append([]byte{}, h[32:64]...)}
 }
 
@@ -114,7 +114,7 @@ func ProveWithNonce(f Format, key Key, alpha []byte, k *big.Int) Trace {
 	t.H = EncodeToCurve(key.PK, alpha)
 	t.Gamma = refh2c.Mul(t.H, key.X)
 	t.K = k
-	t.U = refh2c.Mul(ref.Base, k)
+	t.U = MulBase(k)
 	t.V = refh2c.Mul(t.H, k)
 	t.C = Challenge(f, key.PK, t.H.Encode(), t.Gamma.Encode(), t.U.Encode(), t.V.Encode())
 	t.S = ref.SAdd(k, ref.SMul(t.C, key.X))
@@ -212,9 +212,9 @@ func Verify(f Format, pk, pi, alpha []byte, validateKey bool) (bool, []byte, Rea
 	// 7. H = ECVRF_encode_to_curve(encode_to_curve_salt, alpha_string), salt = PK_string
 	h := EncodeToCurve(pk, alpha)
 	// 8. U = s*B - c*Y
-	u := refh2c.FromAffine(ref.Base).Mul(s).Add(refh2c.FromAffine(y).Mul(c).Neg()).Affine()
+	u := mulBase(s).Add(refh2c.FromAffine(y).Mul(c).Neg()).Affine()
 	// 9. V = s*H - c*Gamma
-	v := refh2c.FromAffine(h).Mul(s).Add(refh2c.FromAffine(gamma).Mul(c).Neg()).Affine()
+	v := straus(s, refh2c.FromAffine(h), c, refh2c.FromAffine(gamma).Neg()).Affine()
 	// 10. c' = ECVRF_challenge_generation(Y, H, Gamma, U, V)
 	cPrime := Challenge(f, y.Encode(), h.Encode(), gamma.Encode(), u.Encode(), v.Encode())
 	// 11.
